@@ -213,6 +213,10 @@ G_STRATSETS = {
     # every comparison that looks at runtime / batch size / a sub-vector of the resources (seed C13-3)
     "F": [({"CPU": 1, "GPU": 1}, 4)],
 }
+# a strategy that demands nothing fits every worker, also a saturated one (seed C10-3: a virtual cluster that shares its
+# saturated workers with the live one); used only in the targeted specs on cluster K7 below
+G_STRATSETS_EXTRA = {"Z": [({"GPU": 0}, 3)]}
+ALL_STRATSETS = dict(G_STRATSETS, **G_STRATSETS_EXTRA)
 # cluster: pools -> workers -> capacity ; occupancy options: None or a RUNNING task
 G_CLUSTERS = {
     "K1": ([[{"GPU": 2}]], [None, {"res": {"GPU": 1}, "deadline": 40}, {"res": {"GPU": 1}, "deadline": 26}]),
@@ -221,6 +225,8 @@ G_CLUSTERS = {
     "K4": ([[{"CPU": 1, "GPU": 1}, {"GPU": 1}]], [None, {"res": {"GPU": 1}, "deadline": 40}]),
     "K5": ([[{"GPU": 2}], [{"CPU": 1, "GPU": 1}]], [None, {"res": {"CPU": 1, "GPU": 1}, "deadline": 40}]),
     "K6": ([[{"CPU": 1, "GPU": 2}]], [None, {"res": {"GPU": 1}, "deadline": 40}]),
+    # first worker saturated by the running task, second one idle
+    "K7": ([[{"GPU": 1}, {"GPU": 1}]], [None, {"res": {"GPU": 1}, "deadline": 40}]),
 }
 OCC_RUNTIME, OCC_START = 20, 4  # the running task: runtime 20, started at 4 -> 14 remaining at NOW
 
@@ -270,10 +276,10 @@ def build_greedy_world(spec):
         return "G" if spec["graphs"] == 1 else "G%d" % (i % 2 + 1)
 
     for i, (d, r, ss) in enumerate(spec["tasks"]):
-        t, strategies = mk_task("T%d" % i, graph_of(i), G_STRATSETS[ss], d)
+        t, strategies = mk_task("T%d" % i, graph_of(i), ALL_STRATSETS[ss], d)
         t.release(ET(r))
-        T.append({"name": "T%d" % i, "kind": "offered", "deadline": d, "release": r, "strats": G_STRATSETS[ss],
-                  "remaining": max(rt for _, rt in G_STRATSETS[ss]), "obj": t, "sobjs": strategies})
+        T.append({"name": "T%d" % i, "kind": "offered", "deadline": d, "release": r, "strats": ALL_STRATSETS[ss],
+                  "remaining": max(rt for _, rt in ALL_STRATSETS[ss]), "obj": t, "sobjs": strategies})
         graphs.setdefault(t.task_graph, {})[t] = []
     if occ is not None:
         t, strategies = mk_task("R", graph_of(0), [(occ["res"], OCC_RUNTIME)], occ["deadline"])
@@ -970,6 +976,12 @@ def greedy_specs(tier, seed, pid):
         for j, ms in enumerate(sampled):
             if j % len(cl) == ci:
                 specs.append({"cluster": K, "occ": oi, "tasks": list(ms), "graphs": 1, "distract": False})
+    # zero-demand strategies on a cluster whose first worker is saturated
+    zt = [(14, 2, "Z"), (30, 6, "Z"), (16, 2, "A"), (14, 6, "B")]
+    for n in (1, 2, 3):
+        for ms in itertools.combinations_with_replacement(zt, n):
+            if any(t[2] == "Z" for t in ms):
+                specs.append({"cluster": "K7", "occ": 1, "tasks": list(ms), "graphs": 1, "distract": False})
     for i, s in enumerate(specs):
         s["seed"] = (seed * 1000003 + i) & 0x7FFFFFFF
     desc = "all %d multisets of <=%d offered tasks over 48 task types (4 deadlines incl. past/tight/loose x 2 releases x 6 strategy lists) + all %d multisets of %d tasks over %d (deadline, strategy list) types with the releases cycling through 4 fixed patterns%s; 2-graph variant (%d multisets of 1-2 tasks) on %s" % (
